@@ -460,7 +460,11 @@ pub struct EnumCase {
 
 pub fn gen_c14(rng: &mut Rng) -> EnumCase {
     let mut p = Profile::default();
-    p.max_items = 40;
+    // a tenth of the workloads is large enough for several kilobytes of staged data to be in flight when the
+    // destination is handed from one chromosome to the next (their crash points and failing operations are
+    // sampled, not enumerated: see run_c14)
+    let large = rng.chance(1, 10);
+    p.max_items = if large { 1500 } else { 40 };
     p.max_chroms = 3;
     p.scaffolds = false;
     p.io_chaos = false;
@@ -710,6 +714,12 @@ pub fn run_c14(ec: &EnumCase) -> RunReport {
         }
     }
     let n = clean.ops.len();
+    // long operation logs (the large workloads): the first 30, the last 60 and every stride-th crash point
+    let stride = if n > 400 { n / 150 } else { 1 };
+    let sampled = |k: usize| stride == 1 || k < 30 || k + 60 >= n || k % stride == 0;
+    if stride > 1 {
+        *st.counters.entry("workloads_with_sampled_fault_points".into()).or_insert(0) += 1;
+    }
     // F6: crash after the k-th operation, for all k
     if ec.only_fail.is_none() {
         for k in 0..=n {
@@ -717,6 +727,8 @@ pub fn run_c14(ec: &EnumCase) -> RunReport {
                 if only != k {
                     continue;
                 }
+            } else if !sampled(k) {
+                continue;
             }
             evals += 1;
             st.faults.entry("F6_crash_point".into()).and_modify(|x| *x += 1).or_insert(1);
@@ -764,11 +776,14 @@ pub fn run_c14(ec: &EnumCase) -> RunReport {
                 }
             }
         }
-        for plan in plans {
+        let plan_stride = if plans.len() > 240 { plans.len() / 120 } else { 1 };
+        for (pi, plan) in plans.into_iter().enumerate() {
             if let Some(only) = &ec.only_fail {
                 if *only != plan {
                     continue;
                 }
+            } else if plan_stride > 1 && pi % plan_stride != 0 && pi % (2 * plan_stride) != 1 {
+                continue;
             }
             evals += 1;
             let mut c = base.clone();
